@@ -96,6 +96,11 @@ def ob_tree(tree, label, agg_none=False):
                 acc = AGG(acc, d)
             return acc
 
+        def mirror(t):
+            return t if t[0] == "p" else (t[0], mirror(t[2]), mirror(t[1]))
+
+        mtree = mirror(tree)
+        mtext = rg.show(mtree, "minimal")
         for kind, text in rg.printings(tree):
             for flags in flag_sets:
                 fl_lab = "all-enabled" if all(flags.values()) else "disabled-" + next(v for v in flags if not flags[v])
@@ -123,6 +128,10 @@ def ob_tree(tree, label, agg_none=False):
                                       "memb = lambda var, term: outdeg(term) if var == 'O' else mem[(var, term)]",
                                       f"tree = {tree!r}",
                                       f"exp = {lit(v['w'])} * evaluate(tree, lambda p: prop_semantics(p, memb, lambda n: flags[n]))",
+                                      f"rule.text = 'if ' + {mtext!r} + ' then O is a'; rule.load(e); rule.weight = {lit(v['w'])}      # another text for the same rule object, loaded again without unload()",
+                                      "relo = float(rule.activate_with(fl.NormLambda(AND), fl.NormLambda(OR)))",
+                                      f"exp_relo = {lit(v['w'])} * evaluate({mtree!r}, lambda p: prop_semantics(p, memb, lambda n: flags[n]))",
+                                      "if not same(relo, exp_relo, 1e-9): verdict(True, 'after giving the rule the text %r and loading it again: %r, grammar semantics %r' % (rule.text, relo, exp_relo))",
                                       "AND, OR = OR, AND",
                                       f"exp_other = {lit(v['w'])} * evaluate(tree, lambda p: prop_semantics(p, memb, lambda n: flags[n]))",
                                       "AND, OR = OR, AND",
@@ -139,7 +148,12 @@ def ob_tree(tree, label, agg_none=False):
                     again = rule.activate_with(fl.NormLambda(AND), fl.NormLambda(OR))
                     stored = rule.activation_degree
                     other = rule.activate_with(fl.NormLambda(OR), fl.NormLambda(AND))      # the same loaded rule, the operators swapped
-                    return r, stored, again, other
+                    # the same rule OBJECT gets another text (the mirrored antecedent) and is loaded again, without unload()
+                    rule.text = f"if {mtext} then O is a"
+                    rule.load(e)
+                    rule.weight = w
+                    relo = rule.activate_with(fl.NormLambda(AND), fl.NormLambda(OR))
+                    return r, stored, again, other, relo
 
                 def memb(v, t):
                     return out_degree(t) if v == OUT else mem[(v, t)]
@@ -148,11 +162,12 @@ def ob_tree(tree, label, agg_none=False):
                     if p.exc is not None:
                         ob.unexpected(pre, p, lab, ins, rp)
                         continue
-                    got, stored, again, other = p.result
+                    got, stored, again, other, relo = p.result
                     val = rg.evaluate(tree, lambda q: rg.prop_semantics(q, memb, hedge, lambda n: flags[n], core.const(1.0), core.const(0.0)), AND, OR)
                     exp = w * val
                     val2 = rg.evaluate(tree, lambda q: rg.prop_semantics(q, memb, hedge, lambda n: flags[n], core.const(1.0), core.const(0.0)), OR, AND)
-                    ob.prove(pre, p, z3.And(same(got, exp), same(stored, again), same(again, exp), same(other, w * val2)), lab, ins, rp)
+                    val3 = rg.evaluate(mtree, lambda q: rg.prop_semantics(q, memb, hedge, lambda n: flags[n], core.const(1.0), core.const(0.0)), AND, OR)
+                    ob.prove(pre, p, z3.And(same(got, exp), same(stored, again), same(again, exp), same(other, w * val2), same(relo, w * val3)), lab, ins, rp)
                     ob.expect_sat(pre, p, same(got, core.const(2.0)), f"{label}/twin")
 
     return run
